@@ -9,6 +9,14 @@ Model: lean/JoblibModel/MemoryCache.lean; theorems: lean/JoblibProofs/C06.lean; 
   arguments in another insertion order, other values for ignored parameters, same or fresh process — does not execute the body
   while the entry file is still there; `check_call_in_cache` == "the next identical call does not execute"; a call the plain
   callable accepts is not rejected by the wrapper.
+  "The same arguments" are the arguments AS PASSED: 15 % of the histories are over functions that work IN PLACE on their list /
+  dict / set / bytearray arguments (sort, pop, append, clear, reverse; ignored arguments too) after snapshotting their result,
+  first completed through `call` (forced), `__call__` or `call_and_shelve`, then repeated with fresh equal arguments. A completed
+  call that left NO entry file under the args id of the arguments it was passed is completed all the same (the one entry it did
+  write is followed for eviction): its repeat must not execute — `equivalent-call-reexecuted:<kind>:mutating-function`
+  (what the seeded change C06-r4-m3 does: MemorizedFunc.call hashing the arguments after the body ran).
+  Model side: the functions' effect on their arguments goes to the driver as `mut` rows (observed on the PLAIN function);
+  the code as it is never reads them (theorem C02.effect_on_arguments_irrelevant), the variant `reset … key-after-call` does.
 
 The model has two versions (`reset old|fixed`): the pinned tree, where MemorizedFunc.call stores without checking the function
 code (F30: `cf.call(x)` on a fresh directory, then `cf(x)` executes again; `check_call_in_cache` says False while the next call is
@@ -32,6 +40,12 @@ REQUIRED_THEOREMS = [
     "C06.old_forced_call_reexecuted_counterexample",
     "C06.old_check_false_but_hit_counterexample",
     "C06.fixed_on_the_F30_witnesses",
+    # functions that mutate their arguments in place (the key is that of the arguments AS PASSED)
+    "C06.key_from_arguments_as_passed",
+    "C06.hit_after_forced_call_mutating",
+    "C06.hit_after_forced_call_mutating_equivalent_partial",
+    "C06.check_true_after_call",
+    "C06.key_after_call_counterexample",
 ]
 TRUSTED_EXTRA = c02.TRUSTED_EXTRA + [
     "results that cannot be pickled are outside the model (its values are storable): covered by the oracle-only probe "
